@@ -33,6 +33,18 @@ func c01Token(c *h.Ctx, cat_ string, ttype uint16, nonce, chal, kid []byte, nk i
 	}
 }
 
+// scribble overwrites buffers the caller handed to CreateTokenRequest: a client that refills one nonce / challenge
+// buffer for its next request (or wipes its scratch space) before finalizing must still get the token of THIS request
+func scribble(bufs ...[]byte) {
+	for _, b := range bufs {
+		for i := range b {
+			b[i] ^= 0xa5
+		}
+	}
+}
+
+func clone(b []byte) []byte { return append([]byte{}, b...) }
+
 // voprfKeyWithLastByte searches derived keys for a token key id ending in the given byte.
 func voprfKeyWithLastByte(c *h.Ctx, suite oprf.Suite, last byte) *oprf.PrivateKey {
 	for {
@@ -52,10 +64,15 @@ func c01Type1(c *h.Ctx, chalLens []int, nKeys int) {
 		}
 		iss := type1.NewBasicPrivateIssuer(sk)
 		kid := iss.TokenKeyID()
-		for _, cl := range chalLens {
+		for ci, cl := range chalLens {
 			chal, nonce := rnd(c, cl), rnd(c, 32)
 			det := map[string]any{"type": 1, "challenge_len": cl, "nonce": h.Hex(nonce)}
-			st, err := type1.NewBasicPrivateClient().CreateTokenRequest(chal, nonce, kid, iss.TokenKey())
+			chalA, nonceA, kidA := clone(chal), clone(nonce), clone(kid)
+			st, err := type1.NewBasicPrivateClient().CreateTokenRequest(chalA, nonceA, kidA, iss.TokenKey())
+			if (ci+ki)%2 == 1 {
+				det["caller_buffers_overwritten_after_request"] = true
+				scribble(chalA, nonceA, kidA)
+			}
 			if err != nil {
 				c.Violation("honest request creation fails", det)
 				continue
@@ -96,10 +113,15 @@ func c01Type2(c *h.Ctx, chalLens []int, nKeys int) {
 		}
 		iss := type2.NewBasicPublicIssuer(key)
 		kid := iss.TokenKeyID()
-		for _, cl := range chalLens {
+		for ci, cl := range chalLens {
 			chal, nonce := rnd(c, cl), rnd(c, 32)
 			det := map[string]any{"type": 2, "challenge_len": cl, "nonce": h.Hex(nonce)}
-			st, err := type2.NewBasicPublicClient().CreateTokenRequest(chal, nonce, kid, &key.PublicKey)
+			chalA, nonceA, kidA := clone(chal), clone(nonce), clone(kid)
+			st, err := type2.NewBasicPublicClient().CreateTokenRequest(chalA, nonceA, kidA, &key.PublicKey)
+			if (ci+ki)%2 == 1 {
+				det["caller_buffers_overwritten_after_request"] = true
+				scribble(chalA, nonceA, kidA)
+			}
 			if err != nil {
 				c.Violation("honest request creation fails", det)
 				continue
@@ -149,7 +171,20 @@ func c01Type5Key(c *h.Ctx, chalLens []int, batches []int, sk *oprf.PrivateKey) {
 			nonces = append(nonces, rnd(c, 32))
 		}
 		det := map[string]any{"type": 5, "batch": n, "challenge_len": len(chal)}
-		st, err := type5.NewBatchedPrivateClient().CreateTokenRequest(chal, nonces, kid, iss.TokenKey())
+		chalA, kidA := clone(chal), clone(kid)
+		noncesA := make([][]byte, len(nonces))
+		for j := range nonces {
+			noncesA[j] = clone(nonces[j])
+		}
+		st, err := type5.NewBatchedPrivateClient().CreateTokenRequest(chalA, noncesA, kidA, iss.TokenKey())
+		if bi%2 == 1 {
+			det["caller_buffers_overwritten_after_request"] = true
+			scribble(chalA, kidA)
+			scribble(noncesA...)
+			for j := range noncesA {
+				noncesA[j] = nil
+			}
+		}
 		if err != nil {
 			c.Violation("honest request creation fails", det)
 			continue
@@ -213,13 +248,27 @@ func c01Type3(c *h.Ctx, chalLens []int, nameLens []int) {
 		client := type3.NewRateLimitedClientFromSecret(rnd(c, 48))
 		chal, nonce := rnd(c, chalLens[ni%len(chalLens)]), rnd(c, 32)
 		det := map[string]any{"type": 3, "origin_len": nl, "origin": h.Hex([]byte(name)), "challenge_len": len(chal)}
-		st, err := env.request(client, chal, nonce, rnd(c, 48), name)
+		if ni%2 == 1 { // registered through AddOrigin (library-generated index key) instead of AddOriginWithIndexKey
+			env = newT3(c, ni, rnd(c, 32), map[string][]byte{"other.example": rnd(c, 48)})
+			if ni%3 == 0 && len(special) > 0 {
+				env = newT3WithKey(c, special[(ni/3)%len(special)], rnd(c, 32), map[string][]byte{"other.example": rnd(c, 48)})
+			}
+			env.issuer.AddOrigin(name)
+			det["registered_with"] = "AddOrigin"
+		}
+		chalA, nonceA, blindA := clone(chal), clone(nonce), rnd(c, 48)
+		st, err := env.request(client, chalA, nonceA, blindA, name)
 		if err != nil {
 			det["err"] = err.Error()
 			c.Violation("honest request creation fails", det)
 			continue
 		}
-		resp, _, err := env.issuer.Evaluate(st.Request().Marshal())
+		wire := st.Request().Marshal()
+		if ni%4 >= 2 {
+			det["caller_buffers_overwritten_after_request"] = true
+			scribble(chalA, nonceA, blindA)
+		}
+		resp, _, err := env.issuer.Evaluate(wire)
 		if err != nil {
 			det["err"] = err.Error()
 			c.Violation("the issuer fails on an honest request that crossed the wire", det)
